@@ -27,6 +27,7 @@ type Emitter struct {
 	assumes   []string // unchecked assumptions used in this unit (extern defaults etc.)
 	inlined   map[string]bool
 	usedSpecs map[string]bool
+	noDefine  bool // build pure terms (inside quantifier bodies)
 }
 
 type Obligation struct {
@@ -84,7 +85,7 @@ func (e *Emitter) pre(s string) {
 func (e *Emitter) line(s string) { e.lines = append(e.lines, s) }
 
 func (e *Emitter) assert(t string) {
-	if t == "" || t == "true" {
+	if t == "" || t == "true" || e.noDefine {
 		return
 	}
 	e.line("(assert " + t + ")")
@@ -100,11 +101,14 @@ func (e *Emitter) fresh(hint, srt string) string {
 
 // define declares a new constant equal to term (keeps VC size linear).
 func (e *Emitter) define(hint, srt, term string) string {
-	if isAtom(term) {
+	if isAtom(term) || e.noDefine {
 		return term
 	}
-	n := e.fresh(hint, srt)
-	e.line(fmt.Sprintf("(assert (= %s %s))", n, term))
+	e.n++
+	n := fmt.Sprintf("%s!%d", sanitize(hint), e.n)
+	// a nullary define-fun is expanded by the solvers like a macro: intermediate values stay
+	// syntactically transparent (important for nonlinear monomials and congruence)
+	e.line(fmt.Sprintf("(define-fun %s () %s %s)", n, srt, term))
 	return n
 }
 
